@@ -18,6 +18,42 @@ type replayDoc struct {
 	ID       string      `json:"id"`
 	Nondet   []NondetRec `json:"nondet"`
 	Fired    []int       `json:"timers_fired"`
+	Sched    []int       `json:"schedule"`
+}
+
+// isRace: a lock-discipline finding, confirmed with the race detector on free-running goroutines.
+func (d *replayDoc) isRace() bool { return strings.HasPrefix(d.ID, "race/") }
+
+// usesSched: the counterexample depends on an interleaving, so the native build gets the
+// scheduling shim for package sync and searches the interleavings.
+func (d *replayDoc) usesSched() bool { return len(d.Sched) > 0 && !d.isRace() }
+
+var syncImportRe = regexp.MustCompile(`(?m)^(\s*)"sync"\s*$`)
+
+// goFilesImporting lists the non-test Go files under root (relative paths) whose import block
+// names the package on a line of its own.
+func goFilesImporting(root string, re *regexp.Regexp) []string {
+	var out []string
+	filepath.Walk(root, func(p string, info os.FileInfo, err error) error {
+		if err != nil {
+			return nil
+		}
+		if info.IsDir() {
+			if n := info.Name(); p != root && (strings.HasPrefix(n, ".") || strings.HasPrefix(n, "zz") || n == "testdata") {
+				return filepath.SkipDir
+			}
+			return nil
+		}
+		if !strings.HasSuffix(p, ".go") || strings.HasSuffix(p, "_test.go") {
+			return nil
+		}
+		if data, e := os.ReadFile(p); e == nil && re.Match(data) {
+			rel, _ := filepath.Rel(root, p)
+			out = append(out, rel)
+		}
+		return nil
+	})
+	return out
 }
 
 // usesClock: the counterexample read the symbolic clock, so the native build needs the time shim.
@@ -84,10 +120,11 @@ func ReplayNative(repo, verif, replayPath string) (bool, string) {
 import (
 	"fmt"
 	h %q
+	vrt "`+RepoMod+`/zzvrt"
 )
 
 func main() {
-	h.%s()
+	vrt.RunSchedules(h.%s)
 	fmt.Println("ZV: END")
 }
 `, imp, doc.Harness)
@@ -104,20 +141,60 @@ func main() {
 			repl[filepath.Join(repo, r, filepath.Base(f))] = f
 		}
 	}
+	// source-to-source redirection of imports, in overlay copies only
+	type redirect struct {
+		re   *regexp.Regexp
+		repl string
+	}
+	var reds []redirect
 	if doc.usesClock() {
 		files, _ := filepath.Glob(filepath.Join(verif, "harness", "zzvtime", "*.go"))
 		for _, f := range files {
 			repl[filepath.Join(repo, "zzvtime", filepath.Base(f))] = f
 		}
-		for i, rel := range clockFiles {
-			src, err := os.ReadFile(filepath.Join(repo, rel))
+		reds = append(reds, redirect{timeImportRe, `${1}time "` + RepoMod + `/zzvtime"`})
+	}
+	if doc.usesSched() {
+		files, _ := filepath.Glob(filepath.Join(verif, "harness", "zzvsync", "*.go"))
+		for _, f := range files {
+			repl[filepath.Join(repo, "zzvsync", filepath.Base(f))] = f
+		}
+		reds = append(reds, redirect{syncImportRe, `${1}sync "` + RepoMod + `/zzvsync"`})
+	}
+	nred := 0
+	for _, rd := range reds {
+		var targets []string // absolute virtual paths
+		if rd.re == timeImportRe {
+			for _, rel := range clockFiles {
+				targets = append(targets, filepath.Join(repo, rel))
+			}
+		} else {
+			for _, rel := range goFilesImporting(repo, rd.re) {
+				targets = append(targets, filepath.Join(repo, rel))
+			}
+			// harness files of the package under test that build sync objects themselves
+			for virt, real := range repl {
+				if strings.HasPrefix(filepath.Base(virt), "zv_") {
+					if data, e := os.ReadFile(real); e == nil && rd.re.Match(data) {
+						targets = append(targets, virt)
+					}
+				}
+			}
+		}
+		for _, virt := range targets {
+			srcPath := virt
+			if real, ok := repl[virt]; ok {
+				srcPath = real
+			}
+			src, err := os.ReadFile(srcPath)
 			if err != nil {
 				continue
 			}
-			out := timeImportRe.ReplaceAll(src, []byte(`${1}time "`+RepoMod+`/zzvtime"`))
-			dst := filepath.Join(tmp, fmt.Sprintf("clock%d.go", i))
+			out := rd.re.ReplaceAll(src, []byte(rd.repl))
+			dst := filepath.Join(tmp, fmt.Sprintf("redir%d.go", nred))
+			nred++
 			os.WriteFile(dst, out, 0o644)
-			repl[filepath.Join(repo, rel)] = dst
+			repl[virt] = dst
 		}
 	}
 	ovData, _ := json.Marshal(map[string]interface{}{"Replace": repl})
@@ -127,23 +204,51 @@ func main() {
 	env := append(os.Environ(), "GOFLAGS=-mod=mod", "GOPROXY=off", "GOSUMDB=off", "GOTOOLCHAIN=local", "GOWORK=off")
 	ctx, cancel := context.WithTimeout(context.Background(), 5*time.Minute)
 	defer cancel()
-	build := exec.CommandContext(ctx, "go", "build", "-overlay", ovPath, "-o", bin, "./zzvmain")
+	buildArgs := []string{"build", "-overlay", ovPath, "-o", bin}
+	if doc.isRace() {
+		buildArgs = append(buildArgs, "-race")
+	}
+	buildArgs = append(buildArgs, "./zzvmain")
+	build := exec.CommandContext(ctx, "go", buildArgs...)
 	build.Dir = repo
 	build.Env = env
 	if out, err := build.CombinedOutput(); err != nil {
 		return false, "native build failed: " + string(out)
 	}
-	ctx2, cancel2 := context.WithTimeout(context.Background(), 60*time.Second)
-	defer cancel2()
-	run := exec.CommandContext(ctx2, bin)
-	run.Env = append(env, "ZV_REPLAY="+replayPath)
-	out, rerr := run.CombinedOutput()
+	var out []byte
+	var rerr error
+	var ctx2 context.Context
+	attempts := 1
+	if doc.isRace() {
+		attempts = 6 // the detector needs both accesses to execute unordered; free-running, so retry
+	}
+	for a := 0; a < attempts; a++ {
+		c2, cancel2 := context.WithTimeout(context.Background(), 90*time.Second)
+		ctx2 = c2
+		run := exec.CommandContext(c2, bin)
+		run.Env = append(env, "ZV_REPLAY="+replayPath)
+		if doc.isRace() {
+			run.Env = append(run.Env, "ZV_LOOP=400", "GORACE=halt_on_error=1")
+		}
+		if doc.usesSched() {
+			run.Env = append(run.Env, "ZV_SCHED=dfs", "ZV_TARGET="+doc.ID)
+		}
+		out, rerr = run.CombinedOutput()
+		cancel2()
+		if !doc.isRace() || strings.Contains(string(out), "DATA RACE") {
+			break
+		}
+	}
 	txt := string(out)
 	if len(txt) > 4000 {
 		txt = txt[:4000]
 	}
 	want := doc.ID
 	switch {
+	case doc.isRace():
+		if strings.Contains(txt, "DATA RACE") {
+			return true, txt
+		}
 	case strings.Contains(txt, "ZV: ASSERT-FAIL "+want):
 		return true, txt
 	case strings.HasSuffix(want, "/unexpected-panic") && (strings.Contains(txt, "panic:") || strings.Contains(txt, "fatal error:")):
